@@ -12,6 +12,7 @@ import (
 	"go/token"
 	"go/types"
 	"os"
+	"sort"
 	"strings"
 
 	"golang.org/x/tools/go/ssa"
@@ -53,9 +54,7 @@ func consumeIndex(c *ssa.Call) (int, bool) {
 	return i, ok
 }
 
-func ruleACC(c *Ctx) {
-	pe := pEngine(c)
-	nCalls := 0
+func discoverConsumers(c *Ctx) {
 	// readers are discovered: every function of package bt that takes an io.Reader and
 	// returns a byte count together with an error
 	for _, fn := range pkgFunctions(c.P, modPath) {
@@ -80,6 +79,12 @@ func ruleACC(c *Ctx) {
 		}
 		consumeCalls[funcName(fn)] = cr
 	}
+}
+
+func ruleACC(c *Ctx) {
+	pe := pEngine(c)
+	nCalls := 0
+	discoverConsumers(c)
 	nReaders := 0
 	for _, fn := range pkgFunctions(c.P, modPath) {
 		cr, ok := consumeCalls[funcName(fn)]
@@ -264,8 +269,10 @@ func accCheckFunc(c *Ctx, pe *PEngine, fn *ssa.Function, countResult int, label 
 					res = &state{l: first, ok: true}
 				} else {
 					// find phi whose every (known) edge equals that predecessor's G
+					// integer accumulators first, then slices whose length accumulates
+					sort.SliceStable(phis, func(i, j int) bool { return isIntType(phis[i].Type()) && !isIntType(phis[j].Type()) })
 					for _, ph := range phis {
-						if !isIntType(ph.Type()) {
+						if !isIntType(ph.Type()) && !isByteSlice(ph.Type()) {
 							continue
 						}
 						good := true
@@ -274,16 +281,16 @@ func accCheckFunc(c *Ctx, pe *PEngine, fn *ssa.Function, countResult int, label 
 							if s == nil || b.Dominates(p) {
 								continue
 							}
-							if !s.ok || !equalAt(p, s.l, pf.linOf(pf.get(ph.Edges[i]))) {
+							if !s.ok || !equalAt(p, s.l, accValue(pf, ph.Edges[i])) {
 								if os.Getenv("VERIF_DEBUG") == "acc" && s.ok {
-									fmt.Fprintf(os.Stderr, "%s b%d phi %s edge %d: G=%s edge=%s\n", label, b.Index, ph.Name(), i, s.l.String(), pf.linOf(pf.get(ph.Edges[i])).String())
+									fmt.Fprintf(os.Stderr, "%s b%d phi %s edge %d: G=%s edge=%s\n", label, b.Index, ph.Name(), i, s.l.String(), accValue(pf, ph.Edges[i]).String())
 								}
 								good = false
 								break
 							}
 						}
 						if good {
-							res = &state{l: linAtom(pf.get(ph)), ok: true}
+							res = &state{l: accValue(pf, ph), ok: true}
 							break
 						}
 					}
@@ -338,7 +345,7 @@ func accCheckFunc(c *Ctx, pe *PEngine, fn *ssa.Function, countResult int, label 
 		var hp *ssa.Phi
 		for _, ins := range b.Instrs {
 			if ph, ok := ins.(*ssa.Phi); ok && pf.get(ph).key != "" {
-				if d := in[b.Index].l.sub(linAtom(pf.get(ph))); d.isConst() && d.c.Sign() == 0 {
+				if d := in[b.Index].l.sub(accValue(pf, ph)); d.isConst() && d.c.Sign() == 0 {
 					hp = ph
 				}
 			}
@@ -352,7 +359,7 @@ func accCheckFunc(c *Ctx, pe *PEngine, fn *ssa.Function, countResult int, label 
 			}
 			key := fmt.Sprintf("loop/%s/b%d", label, b.Index)
 			s := out[p.Index]
-			if s != nil && s.ok && equalAt(p, s.l, pf.linOf(pf.get(hp.Edges[i]))) {
+			if s != nil && s.ok && equalAt(p, s.l, accValue(pf, hp.Edges[i])) {
 				c.OK("ACC", key, posOfBlock(b), "every iteration adds exactly the bytes it consumed to the accumulator")
 			} else {
 				c.Fail("ACC", key, posOfBlock(b), "on a loop back edge the accumulator differs from the bytes consumed during the iteration")
@@ -382,6 +389,15 @@ func accCheckFunc(c *Ctx, pe *PEngine, fn *ssa.Function, countResult int, label 
 		}
 	}
 	return ncalls
+}
+
+// accValue: the number an accumulator candidate stands for: the integer itself, or the length
+// of a byte slice that grows by exactly the bytes read (buf = append(buf, tmp[:k]...)).
+func accValue(pf *pfunc, v ssa.Value) *lin {
+	if isByteSlice(v.Type()) {
+		return pf.linOf(pf.mkLen(pf.get(v)))
+	}
+	return pf.linOf(pf.get(v))
 }
 
 func isIOReader(t types.Type) bool {
